@@ -190,7 +190,7 @@ def cGreen : Name := ['C', 'o', 'l', 'o', 'r', 'G', 'r', 'e', 'e', 'n']
 
 /-- `type Color int8; const ( ColorRed Color = iota - 1; ColorGreen )` -/
 def negWitness : Input :=
-  { T := cColor, kind := ⟨true, 8, false⟩,
+  { T := cColor, kind := ⟨true, 8⟩,
     blocks := [[{ names := [cRed], ty := some cColor, hasVals := true, exprTy := none, vals := [-1] },
                 { names := [cGreen], ty := none, hasVals := false, exprTy := none, vals := [0] }]] }
 
@@ -206,7 +206,7 @@ theorem C04_F_negative_sort_witness :
 
 /-- `type U uint64; const ( UA U = 1; UB U = 1 << 63 )` -/
 def bigWitness : Input :=
-  { T := ['U'], kind := ⟨false, 64, false⟩,
+  { T := ['U'], kind := ⟨false, 64⟩,
     blocks := [[{ names := [['U', 'A']], ty := some ['U'], hasVals := true, exprTy := none, vals := [1] },
                 { names := [['U', 'B']], ty := some ['U'], hasVals := true, exprTy := none, vals := [9223372036854775808] }]] }
 
@@ -219,7 +219,7 @@ theorem C04_F_big_witness :
 untyped constant, two blocks and a prefix that is trimmed -/
 
 def wfExample : Input :=
-  { T := cColor, kind := ⟨false, 8, false⟩,
+  { T := cColor, kind := ⟨false, 8⟩,
     blocks := [[{ names := [cRed, ['_']], ty := some cColor, hasVals := true, exprTy := none, vals := [5, 6] },
                 { names := [cGreen, ['B']], ty := none, hasVals := false, exprTy := none, vals := [7, 8] },
                 { names := [['k']], ty := none, hasVals := true, exprTy := none, vals := [9] },
